@@ -1554,6 +1554,67 @@ function mergeProjections(a: any, b: any): any {
   return b;
 }
 
+// The keys of `input` (at any depth) that its projection `kept` no longer has, as error paths.
+function droppedKeys(
+  input: any,
+  kept: any,
+  path: string[],
+  limit: number,
+  acc: { path: string[]; value: unknown }[] = [],
+): { path: string[]; value: unknown }[] {
+  if (acc.length >= limit || input === kept || typeof input !== "object" || input === null) {
+    return acc;
+  }
+  if (typeof kept !== "object" || kept === null) {
+    return acc;
+  }
+  if (Array.isArray(input)) {
+    if (Array.isArray(kept)) {
+      for (let i = 0; i < input.length && i < kept.length && acc.length < limit; i++) {
+        droppedKeys(input[i], kept[i], [...path, `[${i}]`], limit, acc);
+      }
+    }
+    return acc;
+  }
+  if (isMapInstance(input)) {
+    if (isMapInstance(kept) && kept.size === input.size) {
+      const ek = [...kept.entries()];
+      let i = 0;
+      for (const [k, v] of input) {
+        droppedKeys(k, ek[i][0], [...path, `key(${safeStringify(k)})`], limit, acc);
+        droppedKeys(v, ek[i][1], [...path, `value(${safeStringify(k)})`], limit, acc);
+        i++;
+      }
+    }
+    return acc;
+  }
+  if (isSetInstance(input)) {
+    if (isSetInstance(kept) && kept.size === input.size) {
+      const ek = [...kept];
+      let i = 0;
+      for (const v of input) {
+        droppedKeys(v, ek[i], [...path, `item(${safeStringify(v)})`], limit, acc);
+        i++;
+      }
+    }
+    return acc;
+  }
+  if (input instanceof Date || ArrayBuffer.isView(input)) {
+    return acc;
+  }
+  for (const k of Object.keys(input)) {
+    if (acc.length >= limit) {
+      break;
+    }
+    if (!Object.prototype.hasOwnProperty.call(kept, k)) {
+      acc.push({ path: [...path, k], value: input[k] });
+    } else {
+      droppedKeys(input[k], kept[k], [...path, k], limit, acc);
+    }
+  }
+  return acc;
+}
+
 export class AllOfRuntype extends BaseRuntype {
   private schemas: Runtype[];
   constructor(metadata: RuntypeMetadata | undefined, schemas: Runtype[]) {
@@ -1577,7 +1638,25 @@ export class AllOfRuntype extends BaseRuntype {
       allOf: schemas,
     });
   }
+  // In strict mode a key is undeclared when NO member of the intersection declares it: each member
+  // has to accept the value apart from extra keys, and what the members keep of it together (their
+  // merged projection) has to keep every key of the value.
+  private strictByProjection(ctx: { disallowExtraProperties: boolean }, input: unknown): input is object {
+    return ctx.disallowExtraProperties && typeof input === "object" && input !== null && this.schemas.length > 1;
+  }
+  private mergedProjection(input: object): unknown {
+    return this.parseAfterValidation({ disallowExtraProperties: false, objectKeyOrder: "input" }, input);
+  }
   validate(ctx: ValidateContext, input: unknown): boolean {
+    if (this.strictByProjection(ctx, input)) {
+      const lax = { ...ctx, disallowExtraProperties: false };
+      for (const it of this.schemas) {
+        if (!it.validate(lax, input)) {
+          return false;
+        }
+      }
+      return droppedKeys(input, this.mergedProjection(input), [], 1).length === 0;
+    }
     for (const it of this.schemas) {
       if (!it.validate(ctx, input)) {
         return false;
@@ -1585,11 +1664,13 @@ export class AllOfRuntype extends BaseRuntype {
     }
     return true;
   }
-  parseAfterValidation(ctx: ParseContext, input: any): unknown {
+  parseAfterValidation(ctx0: ParseContext, input: any): unknown {
     if (typeof input !== "object" || input === null) {
       // intersection of non-object types: every member accepted this very value
       return input;
     }
+    // (a member on its own would take the other members' keys for extra ones)
+    const ctx = ctx0.disallowExtraProperties ? { ...ctx0, disallowExtraProperties: false } : ctx0;
     let acc = {};
     for (const it of this.schemas) {
       const parsed = it.parseAfterValidation(ctx, input);
@@ -1600,8 +1681,10 @@ export class AllOfRuntype extends BaseRuntype {
     }
     return acc;
   }
-  reportDecodeError(ctx: ReportContext, input: unknown): DecodeError[] {
+  reportDecodeError(ctx0: ReportContext, input: unknown): DecodeError[] {
     const acc: DecodeError[] = [];
+    const byProjection = this.strictByProjection(ctx0, input);
+    const ctx = byProjection ? { ...ctx0, disallowExtraProperties: false } : ctx0;
     for (const v of this.schemas) {
       // only the members that reject the value have something to report
       if (v.validate(ctx, input)) {
@@ -1609,6 +1692,11 @@ export class AllOfRuntype extends BaseRuntype {
       }
       const errors = v.reportDecodeError(ctx, input);
       appendErrors(acc, errors);
+    }
+    if (byProjection && acc.length === 0) {
+      for (const { path, value } of droppedKeys(input, this.mergedProjection(input), [], MAX_REPORTED_ERRORS)) {
+        appendErrors(acc, buildError({ path: [...ctx0.path, ...path] }, `extra property`, value));
+      }
     }
     return acc;
   }
